@@ -224,11 +224,15 @@ where
 {
     type Stream = Self;
 
-    fn into_parts(self) -> (Vector<VectorDiffContainerStreamElement<S>>, Self::Stream) {
+    fn into_parts(mut self) -> (Vector<VectorDiffContainerStreamElement<S>>, Self::Stream) {
         let values = match self.count {
             Some(count) => self.buffered_vector.clone().skeep(count),
             None => Vector::new(),
         };
+
+        // The values above are the current view: diffs that are still waiting to
+        // be handed out are already part of it and must not be applied on top.
+        self.ready_values = Default::default();
 
         (values, self)
     }
